@@ -187,9 +187,22 @@ def run(R):
         d = ta.closure(call_results([KD])(sp))
         ps = [b for b in sp.blocks if b["term"]["k"] == "call" and callee_matches(b["term"], ["alloc::vec::Vec::push"]) and not b["cleanup"]]
         okd = bool(ps) and all(op_local(b["term"]["args"][1]) in d for b in ps)
+        nsrc = len(ps)
+        if not ps:
+            # map/collect form: the sorted vector is collected from a `map` whose closure yields (peer, key.distance(peer))
+            from rules import closures_passed
+            srtb = [b for b in sp.blocks if b["term"]["k"] == "call" and not b["cleanup"] and callee_matches(b["term"], ["alloc::slice::<impl [T]>::sort_by", "alloc::slice::<impl [T]>::sort_by_key"])]
+            for mb in [b for b in sp.blocks if b["term"]["k"] == "call" and not b["cleanup"] and (b["term"].get("ngen") or "").endswith("Iterator::map")]:
+                for cl in closures_passed(F, sp, mb["term"]):
+                    prep(cl)
+                    kd = Taint(cl, through="all").closure(call_results([KD])(cl))
+                    if 0 in kd and srtb and all(op_local(sb["term"]["args"][0]) in ta.closure({mb["term"]["d"][0]}) or
+                                                   (ta.ref_of.get(op_local(sb["term"]["args"][0]), set()) & ta.closure({mb["term"]["d"][0]})) for sb in srtb):
+                        okd = True
+                        nsrc += 1
         if not okd:
             R.viol("C11.sort.peers.key", "sort-key", "sort_peers_by_key does not sort by key.distance(peer)", sp, sp.lines[0])
-        R.inst("C11.sort.peers.key", "K6 flows-to", "sorted tuples carry key.distance(peer)", len(ps), okd)
+        R.inst("C11.sort.peers.key", "K6 flows-to", "sorted tuples carry key.distance(peer)", nsrc, okd)
     cg = R.body("C11.sort.closest", "ant_node::node::Node::calculate_get_closest_peers")
     if cg is not None:
         prep(cg)
